@@ -1,6 +1,7 @@
 package main
 
 import (
+	"encoding/json"
 	"fmt"
 	"sort"
 	"strings"
@@ -42,6 +43,12 @@ func buildPD(c *Case, cache *storeCache, rules []*placement.Rule) *pdInput {
 		mp := &metapb.Peer{Id: p.ID, StoreId: p.Store, Role: metapb.PeerRole_Voter}
 		if p.Learner {
 			mp.Role = metapb.PeerRole_Learner
+		}
+		switch p.Role {
+		case "incoming":
+			mp.Role = metapb.PeerRole_IncomingVoter
+		case "demoting":
+			mp.Role = metapb.PeerRole_DemotingVoter
 		}
 		if p.ID == c.Leader {
 			leader = mp
@@ -96,6 +103,8 @@ type outcome struct {
 	brute     *bruteResult
 	shape     string
 	pairs     int
+	jsonRules bool // the rule objects were decoded from JSON
+	partOnly  bool // only the model-free clauses were checked
 	exclBlock bool // some peer's store is kept out of some rule only by an exclusive label
 	exclAdmit bool // some peer's store carries an exclusive label and is admitted by a rule naming it
 }
@@ -228,6 +237,19 @@ func judgeRules(c *Case, seed uint64, cache *storeCache, rules []*placement.Rule
 	m, skip := newModel(c)
 	if skip != "" {
 		out.Skip = skip
+		if skip == "joint-consensus-role" || skip == "peer-without-store" {
+			// only with rule lists the rule manager would accept field-wise (count > 0, known role):
+			// anything else cannot reach FitRegion in a server
+			ok := true
+			for _, r := range c.Rules {
+				if r.Count < 1 || (r.Role != "voter" && r.Role != "leader" && r.Role != "follower" && r.Role != "learner") {
+					ok = false
+				}
+			}
+			if ok {
+				partitionOnly(out, c, buildPD(c, cache, rules))
+			}
+		}
 		return out
 	}
 	add := func(key, format string, a ...interface{}) {
@@ -239,6 +261,13 @@ func judgeRules(c *Case, seed uint64, cache *storeCache, rules []*placement.Rule
 		out.Findings = append(out.Findings, finding{key, fmt.Sprintf(format, a...)})
 	}
 	in := buildPD(c, cache, rules)
+	if rules == nil && seed%5 == 0 {
+		// the same rules as they come out of JSON (HTTP API, storage) instead of Go literals
+		if jr := jsonRules(in.rules); jr != nil {
+			in.rules = jr
+			out.jsonRules = true
+		}
+	}
 	var got *placement.RegionFit
 	func() {
 		defer func() {
@@ -256,6 +285,75 @@ func judgeRules(c *Case, seed uint64, cache *storeCache, rules []*placement.Rule
 	}
 	evaluate(out, c, m, in, got, seed)
 	return out
+}
+
+func jsonRules(rules []*placement.Rule) []*placement.Rule {
+	b, err := json.Marshal(rules)
+	if err != nil {
+		return nil
+	}
+	var out []*placement.Rule
+	if json.Unmarshal(b, &out) != nil || len(out) != len(rules) {
+		return nil
+	}
+	return out
+}
+
+// partitionOnly runs FitRegion on a case the model does not judge (joint-consensus roles, a peer
+// whose store is unknown) and checks what needs no model: no panic in FitRegion / IsSatisfied, one
+// RuleFit per rule, every peer of the region exactly once in a rule or in the orphan list, no
+// foreign peer, no more peers than Count, and a peer without a store record in no rule at all
+// (MatchLabelConstraints documents "store == nil -> false" and the score would dereference it).
+func partitionOnly(out *outcome, c *Case, in *pdInput) {
+	out.partOnly = true
+	add := func(key, format string, a ...interface{}) {
+		out.Findings = append(out.Findings, finding{key, fmt.Sprintf(format, a...)})
+	}
+	var got *placement.RegionFit
+	func() {
+		defer func() {
+			if p := recover(); p != nil {
+				add("panic:FitRegion", "placement.FitRegion panicked: %v", p)
+			}
+		}()
+		got = placement.FitRegion(in.stores, in.region, in.rules)
+		_ = got.IsSatisfied()
+	}()
+	if got == nil || len(out.Findings) > 0 {
+		return
+	}
+	if len(got.RuleFits) != len(c.Rules) {
+		add("result:rule-fit-count", "result has %d rule fits for %d rules", len(got.RuleFits), len(c.Rules))
+		return
+	}
+	seen := map[uint64]int{}
+	for k, rf := range got.RuleFits {
+		if rf == nil {
+			add("result:nil-rule-fit", "RuleFits[%d] is nil", k)
+			return
+		}
+		if c.Rules[k].Count >= 0 && len(rf.Peers) > c.Rules[k].Count {
+			add("count:more-peers-than-count", "rule %d has %d peers, count is %d", k, len(rf.Peers), c.Rules[k].Count)
+		}
+		for _, p := range rf.Peers {
+			seen[p.GetId()]++
+			if c.store(p.GetStoreId()) == nil {
+				add("constraint:peer-without-store-record-in-a-rule", "peer %d on unknown store %d is in rule %d", p.GetId(), p.GetStoreId(), k)
+			}
+		}
+	}
+	for _, p := range got.OrphanPeers {
+		seen[p.GetId()]++
+	}
+	for _, p := range c.Peers {
+		if seen[p.ID] != 1 {
+			add("partition:peer-not-exactly-once", "peer %d appears %d times in the result", p.ID, seen[p.ID])
+		}
+		delete(seen, p.ID)
+	}
+	for id := range seen {
+		add("partition:foreign-peer", "peer %d in the result is not a peer of the region", id)
+	}
 }
 
 // judgeGot judges a result that was obtained elsewhere (a real entry point such as
